@@ -11,13 +11,22 @@
      component) and with no continuation entry long targets are silently truncated: both witnesses
      were reproduced on pycdlib and are known findings;
    - the record-level and the component-level CONTINUE flags obey the discipline a reader relies on;
-   - continuation areas never overlap and stay inside their sector for every add/remove history.
+   - continuation areas never overlap and stay inside their sector for every add/remove history;
+   - link counts (Model/Nlink.v, hand model of the PX posix_file_links bookkeeping of
+     DirectoryRecord._rr_new / remove_child / the '..' refresh of _reassign_vd_dirrecord_extents):
+     after ANY history of add_directory / rm_directory, accepted or refused, and the recomputation
+     every directory carries st_nlink = 2 + number of sub-directories on its own record and on its
+     '.', and every '..' carries its parent's value.  (The first faithful model REFUTED this: a
+     refused duplicate add_directory left the parent's counts bumped; reproduced on pycdlib,
+     repaired by fix 32b487c, and the model follows the repaired code.)
    Tie: both models are compared with the real methods on every run (namesleaf.py, celeaf.py); the
    property itself is evaluated on generated Rock Ridge images by the independent reader (names,
    types, modes, link counts, targets, CE/CL/PL pointers, relocation). *)
 From Coq Require Import ZArith List Bool.
 From PV.Model Require Import LongNames CeAlloc.
 From PV.Proofs Require Import LongNamesProofs CeAllocProofs.
+From PV.Model Require Nlink.
+From PV.Proofs Require NlinkProofs.
 Import ListNotations.
 Local Open Scope Z_scope.
 
@@ -55,3 +64,21 @@ Theorem C08_ce_pointer_designates_its_area : forall M len es o, wf M es -> fst (
   In (o, len) (snd (add_entry M es len)) /\ o + len <= M /\
   Forall (fun e => o + len <= fst e \/ fst e + snd e <= o) es.
 Proof. intros M len es o W E O. destruct (add_entry_placed M len es o W E O) as (A & B & _ & D). repeat split; assumption. Qed.
+
+(* ---- link counts ------------------------------------------------------------------------------ *)
+Theorem C08_nlink : forall ops,
+  NlinkProofs.nlink_ok (Nlink.reshuffle (Nlink.run Nlink.init ops)).
+Proof. exact NlinkProofs.C08_nlink. Qed.
+
+Theorem C08_nlink_invariant_before_recomputation : forall ops, NlinkProofs.Inv (Nlink.run Nlink.init ops).
+Proof. exact NlinkProofs.Inv_run. Qed.
+
+Theorem C08_nlink_refused_edit_changes_nothing : forall s o, Nlink.accepts s o = false -> Nlink.step s o = s.
+Proof. exact NlinkProofs.step_refused_unchanged. Qed.
+
+Theorem C08_nlink_recomputation_idempotent : forall s, Nlink.reshuffle (Nlink.reshuffle s) = Nlink.reshuffle s.
+Proof. exact NlinkProofs.reshuffle_idempotent. Qed.
+
+Theorem C08_nlink_example :
+  Nlink.run_probe [Nlink.AddDir [1]; Nlink.AddDir [1]] = [([], 0, 3, 3); ([1], 2, 2, 3)].
+Proof. exact NlinkProofs.nlink_ex_dup. Qed.
